@@ -123,6 +123,7 @@ impl Prop for C05 {
             imp: Imp::Blocking,
             mode: e.0,
             verify_version: true,
+            explicit_gate: true,
             inbound: stream,
             reads,
             writes: vec![],
@@ -177,6 +178,7 @@ impl Prop for C05 {
             imp: if rng.chance(1, 2) { Imp::Blocking } else { Imp::Tokio },
             mode,
             verify_version: rng.chance(1, 2),
+            explicit_gate: true,
             inbound,
             reads,
             writes,
